@@ -30,6 +30,10 @@ func init() {
 				out = append(out, &vexplore.Scenario{Name: "close-vs-blocked-calls:" + k.Name + ".ctx", Mode: "sched", Bound: b, Reset: kit.ResetGlobals, Body: func() { closeBlocked(k, true) }})
 			}
 		}
+		for _, k := range kinds.All {
+			k := k
+			out = append(out, &vexplore.Scenario{Name: "close-vs-calls-waiting-for-a-peer:" + k.Name, Mode: "sched", Bound: b, Reset: kit.ResetGlobals, Body: func() { closeNoPeer(k) }})
+		}
 		out = append(out,
 			&vexplore.Scenario{Name: "close-vs-dial-listen", Mode: "sched", Bound: b + 1, Reset: kit.ResetGlobals, Body: closeVsSetup},
 			&vexplore.Scenario{Name: "inproc-dial-waiting-vs-listener-close", Mode: "sched", Bound: b, Reset: kit.ResetGlobals, Body: inprocDialWaiting},
@@ -177,6 +181,76 @@ func closeBlocked(k *kinds.Kind, useCtx bool) {
 	kit.Quiesce()
 	census(name)
 	kit.Observe("%s", name)
+}
+
+// closeNoPeer: nobody is connected.  A Send waits for a peer and a Recv waits behind it on the same
+// socket or context (free choice) when the socket - or only the context - is closed: both calls
+// return, with the closed error unless they had failed by themselves before.
+func closeNoPeer(k *kinds.Kind) {
+	s, err := k.New()
+	if err != nil {
+		kit.Failf("setup", "NewSocket: %v", err)
+	}
+	mode := 0 // 0: calls on the socket, socket closed; 1: calls on a context, socket closed; 2: calls on a context, context closed
+	if k.Ctx {
+		mode = kit.ChooseFree(3)
+	}
+	var ctx mangos.Context
+	if mode > 0 {
+		if ctx, err = s.OpenContext(); err != nil {
+			kit.Failf("setup:ctx:"+k.Name, "OpenContext: %s", kit.ErrName(err))
+		}
+	}
+	x := &kinds.Sock{K: k, S: s}
+	name := fmt.Sprintf("%s:mode%d", k.Name, mode)
+	var calls []*kit.Call
+	if k.CanSend {
+		calls = append(calls, kit.Start("Send", func() (interface{}, error) {
+			if ctx != nil {
+				return nil, ctx.Send([]byte("waiting"))
+			}
+			return nil, x.Send("waiting")
+		}))
+		kit.Quiesce()
+	}
+	if k.CanRecv {
+		calls = append(calls, kit.Start("Recv", func() (interface{}, error) {
+			if ctx != nil {
+				b, err := ctx.Recv()
+				return string(b), err
+			}
+			return x.Recv()
+		}))
+		kit.Quiesce()
+	}
+	waiting := 0
+	for _, c := range calls {
+		if !c.Done() {
+			waiting++
+		}
+	}
+	cc := kit.Start("Close", func() (interface{}, error) {
+		if mode == 2 {
+			return nil, ctx.Close()
+		}
+		return nil, s.Close()
+	})
+	kit.Quiesce()
+	if !cc.Done() || cc.Err != nil {
+		kit.Failf("close-blocked:"+name, "%s: Close done=%v %s", name, cc.Done(), kit.ErrName(cc.Err))
+	}
+	for _, c := range calls {
+		if !c.Done() {
+			kit.Failf("call-not-unblocked:"+name+":"+c.Name, "%s: nobody connected, %d call(s) were waiting; %s is still blocked after Close returned", name, waiting, c.Name)
+		}
+	}
+	if mode == 2 {
+		kit.Must("Socket.Close", func() { _ = s.Close() })
+	}
+	kit.Sleep(time.Hour)
+	kit.Quiesce()
+	census(name)
+	kit.Observe("%s waiting=%d", name, waiting)
 }
 
 func callKind(c *kit.Call) string {
